@@ -185,7 +185,8 @@ class C10(BaseCheck):
                 ctor['cols'][c].append(['c%d' % j, gen_value(r, p_v3 / 2)])
         kinds = ['meta_set', 'meta_append', 'meta_extend', 'meta_add_item', 'meta_update', 'meta_setdefault',
                  'col_meta_set', 'col_meta_append', 'col_meta_extend', 'col_assign',
-                 'append', 'insert', 'extend', 'iadd', 'setitem', 'row_poke', 'col_poke', 'derive', 'extend_grid', 'add_column']
+                 'append', 'insert', 'extend', 'iadd', 'setitem', 'row_poke', 'col_poke', 'derive', 'extend_grid', 'add_column',
+                 'col_from_grid']
         enabled = [x for x in kinds if k.random() < 0.7] or ['append']
         n = k.choice([2, 3, 4, 6, 8, 12]) if tier == 'quick' else k.choice([3, 6, 12, 20, 30])
         ops = []
@@ -200,7 +201,7 @@ class C10(BaseCheck):
                     o['v'] = gen_value(r, p_v3)
                 if op == 'meta_add_item':
                     o['index'] = r.randrange(3)
-            elif op.startswith('col_'):
+            elif op.startswith('col_') and op != 'col_from_grid':
                 o['c'] = r.choice(COLS)
                 if op in ('col_meta_extend', 'col_assign'):
                     o['pairs'] = [['c%d' % r.randrange(3), gen_value(r, p_v3)] for _ in range(r.choice([1, 2]))]
@@ -212,6 +213,12 @@ class C10(BaseCheck):
                 if r.random() < 0.25:
                     o['row']['x'] = gen_value(r, p_v3)       # a key that is not (yet) a declared column
                 o['i'] = r.randrange(3)
+            elif op == 'col_from_grid':
+                # the column metadata object of ANOTHER grid (made by its constructor) is assigned into this one
+                o['c'] = r.choice(COLS)
+                o['src_ver'] = r.choice(['3.0', '3.0', None, '4.0'])
+                o['pairs'] = [['c%d' % r.randrange(3), gen_value(r, 0.6)] for _ in range(r.choice([1, 2]))]
+                o['how'] = r.choice(['setitem', 'add_item', 'update'])
             elif op == 'add_column':
                 o['c'] = 'x'
                 o['pairs'] = [['c0', gen_value(r, p_v3 / 2)]] if r.random() < 0.3 else []
@@ -330,6 +337,7 @@ class C10(BaseCheck):
         if ctor_v3:
             met_decision += 1
         poked = False
+        foreign_cols = set()
         upgraded = False
         last_ver = hs.Version(str(g.version))
 
@@ -341,7 +349,7 @@ class C10(BaseCheck):
             specs = []
             if 'v' in o:
                 specs.append(o['v'])
-            if op in ('col_assign', 'add_column'):
+            if op in ('col_assign', 'add_column', 'col_from_grid'):
                 specs.extend(dict((k, s) for k, s in o['pairs']).values())   # a dict literal: last value per key wins
             else:
                 for p in o.get('pairs', []):
@@ -355,6 +363,7 @@ class C10(BaseCheck):
             nrows = len(g)
             exc = None
             skipped = False
+            shared_store = False
             try:
                 if op == 'meta_set':
                     g.metadata[o['k']] = mkv(hs, o['v'])
@@ -372,6 +381,20 @@ class C10(BaseCheck):
                     g.metadata.setdefault(o['k'], mkv(hs, o['v']))
                 elif op.startswith('col_meta_') and not hasattr(g.column[o['c']], 'add_item'):
                     skipped = True    # the column holds a plain dict (col_assign): stores into it bypass the grid by construction
+                elif op.startswith('col_meta_') and o['c'] in foreign_cols:
+                    # this column's metadata OBJECT was taken from another grid and is still shared with it: a store
+                    # through it is checked against that other grid (one object, one validator).  Like an in-place
+                    # row edit, this grid cannot see it; only the writers are judged afterwards.
+                    if op == 'col_meta_set':
+                        g.column[o['c']][o['k']] = mkv(hs, o['v'])
+                    elif op == 'col_meta_append':
+                        g.column[o['c']].append(o['k'], mkv(hs, o['v']))
+                    else:
+                        g.column[o['c']].extend([(k, mkv(hs, s)) for k, s in o['pairs']])
+                    if v3:
+                        poked = True
+                        stats['fault.store_through_shared_column_metadata'] = stats.get('fault.store_through_shared_column_metadata', 0) + 1
+                    shared_store = True
                 elif op == 'col_meta_set':
                     g.column[o['c']][o['k']] = mkv(hs, o['v'])
                 elif op == 'col_meta_append':
@@ -406,6 +429,21 @@ class C10(BaseCheck):
                     g.extend([{c: mkv(hs, s) for c, s in rw.items()} for rw in o['rows']])
                 elif op == 'iadd':
                     g += [{c: mkv(hs, s) for c, s in rw.items()} for rw in o['rows']]
+                elif op == 'col_from_grid':
+                    try:
+                        src = hs.Grid(version=o.get('src_ver'), columns=[(o['c'], [(k_, mkv(hs, s_)) for k_, s_ in o['pairs']])])
+                    except ValueError:
+                        src = None
+                    if src is None:
+                        skipped = True
+                    elif o.get('how') == 'add_item':
+                        g.column.add_item(o['c'], src.column[o['c']])
+                    elif o.get('how') == 'update':
+                        g.column.update(src.column)
+                    else:
+                        g.column[o['c']] = src.column[o['c']]
+                    if not skipped:
+                        foreign_cols.add(o['c'])
                 elif op == 'add_column':
                     # a column declared after rows already carry values under that key
                     g.column[o['c']] = {k_: mkv(hs, s_) for k_, s_ in o['pairs']}
@@ -445,6 +483,7 @@ class C10(BaseCheck):
                                 if self.accepts(o['ver']) or not any(has_v3_value(hs, v) for v in row.values()):
                                     ng.append(row)
                         g = ng
+                        foreign_cols.clear()          # every way of deriving builds (or deep-copies) its own metadata objects
                         if how != 'deepcopy':
                             gver = str(g.version)
                             explicit = True
@@ -498,7 +537,7 @@ class C10(BaseCheck):
             else:
                 events.append((step, tag, 'ok'))
                 skeleton.append(tag)
-                if v3 and op not in ('row_poke', 'col_poke'):
+                if v3 and op not in ('row_poke', 'col_poke') and not shared_store:
                     met_decision += 1
                     if pre3:
                         viol = fail('not-refused', step=step, op=o, version=gver, kinds=kinds,
